@@ -54,7 +54,7 @@ THEOREMS = ["Wtf.C05." + t for t in (
     "update_clears", "disabled_bypasses", "switches_agree", "old_fallback_breaks_transparency",
     # Props/C05b.lean: the key function spelled out as hash o (modelled text)
     "key_names_ok", "key_text_injective", "key_families_disjoint", "enc_separates", "enc_separates_finite",
-    "transparent_keyed", "transparent_keyed_finite", "no_sharing_keyed", "no_sharing_keyed_finite")]
+    "transparent_keyed", "transparent_keyed_finite", "no_sharing_keyed", "no_sharing_keyed_finite", "norm_valid_model")]
 
 ASSERTIONS = ["cachekey:optionFields", "cachekey:keyFields", "cachekey:conv:SearchWithOptionsAndCache", "cachekey:conv:convertToCacheOptions",
               "cachekey:convertToCacheOptions:body", "cachekey:reads", "cachekey:SearchUniversal:query", "cachekey:generateCacheKey",
